@@ -75,7 +75,12 @@ ETAB = {'ProtocolError': 'ProtocolError', 'NoSuchModule': 'NoSuchModuleError', '
         'IsBusy': 'IsBusyError', 'IsError': 'IsErrorError', 'Disabled': 'DisabledError', 'Impossible': 'ImpossibleError',
         'ReadFailed': 'ReadFailedError', 'OutOfRange': 'OutOfRangeError', 'NotImplemented': 'NotImplementedSECoPError',
         'InternalError': None, 'Bogus': None, 'BadValue': None}
-TEXTS = {'t1': 'sensor failed', 't2': 'device: no answer (code 5)', 'tp': 'RangeError: sensor failed'}
+# tp: frappy's leading "Class: text" convention (both readings allowed by the spec); tm / th: the name of an error class
+# followed by ': ' in the MIDDLE of the text, tv: leading name of a python exception that is no SECoP error class -
+# all three are plain texts for the property: class = the reported class, text preserved
+TEXTS = {'t1': 'sensor failed', 't2': 'device: no answer (code 5)', 'tp': 'RangeError: sensor failed',
+         'tm': 'device said RangeError: sensor failed', 'th': 'failed with HardwareError: sensor failed',
+         'tv': 'ValueError: sensor failed'}
 
 
 def norm(v):
@@ -594,7 +599,7 @@ def _random_trace(seed_n):
                 msg['t'] = rnd.choice([NOT, rnd.randint(0, 30), max(0, now - rnd.randint(0, 3)), now])
                 if iserr:
                     msg['en'] = rnd.choice(R_ENAMES)
-                    msg['tx'] = rnd.choice(['t1', 't2', 'tp'])
+                    msg['tx'] = rnd.choice(sorted(TEXTS))
                 else:
                     msg['w'] = rnd.choice(['w1', 'w2', 'w3', 'w1', 'w2', 'w3', 'wbad'])
             if action == 'error_change':
@@ -680,7 +685,10 @@ def _sweep_trace(seed):
     for en in R_ENAMES:
         def msg(action, ident, t):
             return {'ev': 'recv', 'msg': {'action': action, 'ident': ident, 'shape': 'ok', 'w': 'w1', 't': t, 'en': en,
-                                          'tx': rnd.choice(['t1', 't2'])}}
+                                          'tx': rnd.choice(['t1', 't2', 'tm', 'th', 'tv'])}}
+        for tx in sorted(TEXTS):      # every class x every kind of text
+            steps.append({'ev': 'recv', 'msg': {'action': rnd.choice(['error_update', 'error_read']), 'ident': ['m2', 'x'],
+                                                'shape': 'ok', 'w': 'w1', 't': NOT, 'en': en, 'tx': tx}})
         steps += [{'ev': 'expect', 'rk': ['reply', ['m1', 'value']]}, msg('error_read', ['m1', 'value'], now),
                   msg('error_update', ['m2', 'x'], NOT),
                   {'ev': 'expect', 'rk': ['changed', ['m1', 'target']]}, msg('error_change', ['m1', 'target'], NOT),
@@ -1300,7 +1308,9 @@ def _e2e_batch(arg):
             raises(kind, errclasses[(PKINDS.index(kind) + seed) % len(errclasses)],
                    rnd.choice(['sensor %s failed' % kind, 'no answer: timeout']))
         for cls in errclasses:
-            raises('int', cls, rnd.choice(['sensor failed', 'no answer: timeout (code 5)']), errclass=cls.__name__)
+            for text in ('sensor failed', 'no answer: timeout (code 5)', 'device said RangeError: 5 too big',
+                         'failed with %s: inner reason' % cls.__name__, 'ValueError: invalid literal'):
+                raises('int', cls, text, errclass=cls.__name__)
         # -- command without argument
         for path in ('direct', 'proxy'):
             c, mod = clients[path]
